@@ -86,6 +86,16 @@ class PhasePredictor(QTable):
     @property
     def intervals(self):
         """Intervals where the predictor is valid and should be used."""
+        # (memoised for the rows as they are now: the table can be edited in place)
+        rows = (
+            np.asarray(self["tmid"].jd1).tobytes(),
+            np.asarray(self["tmid"].jd2).tobytes(),
+            np.asarray(self["span"].to_value(u.s)).tobytes(),
+        )
+        if getattr(self, "_intervals_rows", None) != rows:
+            self._intervals = None
+            self._intervals_rows = rows
+
         if self._intervals is None:
             tstart = self["tmid"] - self["span"] / 2
             tstop = self["tmid"] + self["span"] / 2
@@ -125,8 +135,15 @@ class PhasePredictor(QTable):
         ref = span_ends[order[0]]
         ends = (span_ends - ref).to_value(u.s)
         order = np.argsort(ends)
-        index = np.searchsorted(ends, (times - ref).to_value(u.s), sorter=order)
-        index = order[np.minimum(index, len(order) - 1)]
+        pos = np.searchsorted(ends, (times - ref).to_value(u.s), sorter=order)
+        pos = np.minimum(pos, len(order) - 1)
+        # Seconds since the reference are coarse far from it (4 ns after a year):
+        # settle the ties with exact comparisons of the times themselves.
+        late = (times > span_ends[order[pos]]) & (pos < len(order) - 1)
+        pos = pos + late
+        early = (pos > 0) & (times <= span_ends[order[np.maximum(pos - 1, 0)]])
+        pos = pos - early
+        index = order[pos]
         dt = (times - self["tmid"][index]).to_value(u.s)
         return index, dt
 
